@@ -1489,9 +1489,20 @@ pub fn main(glue: &Glue) {
             for (k, v) in &c {
                 counters.put(k, J::uz(*v));
             }
+            let mut shape = J::obj();
+            for (k, v) in an.shape() {
+                shape.put(k, J::Bool(if k == "ten_or_more_terminals" { g.terms.len() >= 10 } else { v }));
+            }
+            let emitted_states = model.get("emitted_states").and_then(|x| x.as_usize()).unwrap_or(0);
+            shape.put("emitted_states", J::uz(emitted_states));
+            shape.put(
+                "lalr_merged_distinct_lr1_states",
+                J::Bool(reference.lr1_states > emitted_states && emitted_states > 0),
+            );
             let summary = J::obj()
                 .set("item", J::Int(item as i128))
                 .set("family", J::str(&g.family))
+                .set("shape", shape)
                 .set("all_productive", J::Bool(reference.productive))
                 .set("lr1_states", J::uz(reference.lr1_states))
                 .set("runs", J::uz(total))
